@@ -107,10 +107,12 @@ def run_complete(unit, em):
             continue
         handled = set()
         if is_cctor:
+            # only initialisers written in the source count: a member left to its in-class default initialiser
+            # (`size_t next_ = 0;`) starts afresh instead of being copied
             for i in fn.d.get('inits') or []:
-                if i.get('n'):
+                if i.get('n') and i.get('written'):
                     handled.add(i['n'])
-            if not (fn.d.get('inits') or []):
+            if not any(i.get('written') for i in fn.d.get('inits') or []):
                 continue
         if fn.body is not None:
             for n in fn.walk():
